@@ -146,6 +146,9 @@ def ask(z, q):
             return "None" if r is None else "%s,%s" % (r[0].isoformat(), r[1].isoformat())
         if kind == "amb":
             return str(z.is_ambiguous(q[1]))
+        if kind in ("ambg", "exists"):      # PEP 495 classification through the public helpers
+            from dateutil import tz as _tz
+            return str((_tz.datetime_ambiguous if kind == "ambg" else _tz.datetime_exists)(q[1], z))
         if kind == "comp":          # _tzicalvtz: which component
             _, dt, fold = q
             return str(z._comps.index(z._find_comp(dt.replace(tzinfo=z, fold=fold))))
@@ -158,6 +161,41 @@ def qkey(q):
     return "%s %s" % (q[0], " ".join(x.isoformat() if hasattr(x, "isoformat") else str(x) for x in q[1:]))
 
 
+def qwire(q):
+    return [q[0]] + [x.isoformat() if hasattr(x, "isoformat") else x for x in q[1:]]
+
+
+def qparse(w):
+    return tuple([w[0]] + [datetime.datetime.fromisoformat(x) if isinstance(x, str) else x for x in w[1:]])
+
+
+def replay_history(shared, fresh, wire):
+    """-> True when every answer of the one object equals the fresh object's (the property holds on this history)"""
+    ok = True
+    for n, w in enumerate(wire):
+        q = qparse(w)
+        got, want = ask(shared, q), ask(fresh(), q)
+        if got != want:
+            print("lookup %d %s: the object with the history answers %s, a fresh one %s" % (n, qkey(q), got, want))
+            ok = False
+            break
+    return ok
+
+
+def replay_threads(make_shared, fresh, funcs, lock_attr, case):
+    warm = [qparse(w) for w in case["warm_wire"]]
+    jobs = [[qparse(w) for w in qs] for qs in case["jobs_wire"]]
+    obj = make_shared()
+    for q in warm:
+        ask(obj, q)
+    first, n = case["first"], case["prefix"]
+    res, trace, done = run_schedule(obj, funcs, lock_attr, jobs, [(first, n), (1 - first, None), (first, None)])
+    want = [[ask(fresh(), q) for q in qs] for qs in jobs]
+    print("schedule: thread %d runs %d statements, thread %d runs to its end, then everything finishes" % (first, n, 1 - first))
+    print("answers %r; a fresh object gives %r; all threads finished: %s" % (res, want, done))
+    return done and res == want
+
+
 def history(ctx, label, shared, fresh, queries, case):
     """run `queries` in order on the one object `shared`; each answer must equal the answer of `fresh()` (a new object) to that query"""
     for n, q in enumerate(queries):
@@ -166,7 +204,7 @@ def history(ctx, label, shared, fresh, queries, case):
         ctx.case((label, case.get("zone"), n, qkey(q)), nontrivial=True)
         if got != want:
             c = dict(case); c.update({"kind": "history", "stream": label, "position": n, "query": qkey(q),
-                                      "history": [qkey(x) for x in queries[:n + 1]][-40:]})
+                                      "history_wire": [qwire(x) for x in queries[:n + 1]]})
             ctx.violation("%s: after %d earlier lookups on the same object %s gives %s; a fresh object of the same definition gives %s"
                           % (label, n, qkey(q), got, want), c, None)
             return False
@@ -364,7 +402,7 @@ def threads(ctx, label, make_shared, fresh, funcs, lock_attr, warm, jobs, case, 
                 return False
             if res != want:
                 c = dict(case); c.update({"kind": "threads", "stream": label, "first": first, "prefix": n, "trace": trace[-40:],
-                                          "jobs": [[qkey(q) for q in qs] for qs in jobs], "warm": [qkey(q) for q in warm]})
+                                          "jobs_wire": [[qwire(q) for q in qs] for qs in jobs], "warm_wire": [qwire(q) for q in warm]})
                 ctx.violation("%s: thread %d pre-empted after %d statements (at %s): answers %r, a fresh object gives %r"
                               % (label, first, n, trace[n - 1] if len(trace) >= n else "?", res, want), c, None)
                 return False
